@@ -20,9 +20,53 @@ fn main() {
                 s = s.wrapping_mul(6364136223846793005).wrapping_add(1442695040888963407);
             }
         }
+        // test vectors for validating the MIR->SMT translation: bits(x) bits(m) bits(result)
+        "rem-euclid-vectors" => {
+            for (x, m) in float_vectors() {
+                let r = re::math::float::fallback::rem_euclid(x, m);
+                println!("{:08x} {:08x} {:08x}", x.to_bits(), m.to_bits(), r.to_bits());
+            }
+        }
+        // the real function at one input (native replay of SMT counterexamples)
+        "rem-euclid-at" => {
+            let a: Vec<u32> = std::env::args().skip(2).map(|s| u32::from_str_radix(&s, 16).unwrap()).collect();
+            let r = re::math::float::fallback::rem_euclid(f32::from_bits(a[0]), f32::from_bits(a[1]));
+            println!("{:08x}", r.to_bits());
+        }
+        #[cfg(feature = "libm")]
+        "wrap-at" => {
+            use re::math::angle::rads;
+            let a: Vec<u32> = std::env::args().skip(2).map(|s| u32::from_str_radix(&s, 16).unwrap()).collect();
+            let r = rads(f32::from_bits(a[0])).wrap(rads(f32::from_bits(a[1])), rads(f32::from_bits(a[2]))).to_rads();
+            println!("{:08x}", r.to_bits());
+        }
+        "floor-vectors" => {
+            for (x, _) in float_vectors() {
+                let r = re::math::float::fallback::floor(x);
+                println!("{:08x} {:08x}", x.to_bits(), r.to_bits());
+            }
+        }
+        #[cfg(feature = "libm")]
+        "wrap-vectors" => {
+            use re::math::angle::rads;
+            for (x, m) in float_vectors() {
+                let lo = -0.75 * m;
+                let r = rads(x).wrap(rads(lo), rads(lo + m)).to_rads();
+                println!("{:08x} {:08x} {:08x} {:08x}", x.to_bits(), lo.to_bits(), (lo + m).to_bits(), r.to_bits());
+            }
+        }
         _ => {
-            eprintln!("usage: rfv-extract xorshift-basis|xorshift-samples");
+            eprintln!("usage: rfv-extract xorshift-basis|xorshift-samples|rem-euclid-vectors|floor-vectors|wrap-vectors");
             std::process::exit(2);
         }
     }
+}
+
+fn float_vectors() -> Vec<(f32, f32)> {
+    let xs = [0.0f32, -0.0, 1.0, -1.0, 5.5, -5.5, 7.0, -7.0, 0.1, -0.1, 123456.78, -123456.78, 1e-30, -1e-30, 3.1415927, -3.1415927,
+              6.2831855, -6.2831855, 1e7, -1e7, 0.49999997, -0.5, 63.9375, -63.9375, 1.1754944e-38, -1.1754944e-38, 1e-45, 40.4375, -40.4375, 2.5, -2.5, 1000.001];
+    let ms = [1.0f32, 2.0, 6.0, 6.2831855, 0.75, 13.5, 372.5, 1e-3];
+    let mut v = Vec::new();
+    for x in xs { for m in ms { v.push((x, m)); } }
+    v
 }
